@@ -318,8 +318,12 @@ class ParseCLI(_e2e.E2E):
             # the command must not fail where the generator does not; and where the generator itself raises (a packet the definition cannot
             # decode) the command ends in that traceback - the property says it never does ("on any file"): reported, and listed as a KNOWN
             # finding in known_findings.json (how the CLI should report a decoding error is a design decision of the maintainers)
-            return [("spp parse fails only on a file on which the definition's generator fails", self._plain_end != "stop"),
-                    ("spp parse does not end in a traceback when a packet cannot be decoded", False)], {"idx": 0}, {"index": None, "cli_end": self._end}
+            obl = [("spp parse fails only on a file on which the definition's generator fails", self._plain_end != "stop")]
+            if self._spec_end in ("exc", "exc-allowed"):
+                # (only where Spec-XTCE allows / demands the decoder's exception; a generator that raises for a packet it should decode is an
+                #  ordinary violation, reported by the packet obligations above)
+                obl.append(("spp parse does not end in a traceback when a packet cannot be decoded", False))
+            return obl, {"idx": 0}, {"index": None, "cli_end": self._end}
         n = len(yields)
         i = z3.BitVec("idx", bv.W)
         ctx.assume(z3.And(i >= 0, i <= n + 1))
@@ -392,7 +396,7 @@ def jobs(tier):
         [{"name": "parse-cli-T6-12-commented-definition", "h": "parse-cli", "params": {"template": "T6", "lens": [12], "flagsets": [1], "commented": True}, "split": 8, "chunk": 25,
           "max_paths": 100000, "must_reach": []}] + \
         [{"name": f"parse-cli-{t}-{'-'.join(map(str, lens))}", "h": "parse-cli", "params": {"template": t, "lens": lens, "flagsets": [1]}, "split": 16, "chunk": 25,
-          "max_paths": 200000, "must_reach": []} for t, lens in ((("T4", [9, 10]), ("T4", [9, 9, 9])) if tier == "quick" else (("T4", [9, 10, 9]), ("T4", [10, 9, 9]), ("T1", [19]), ("T6", [12, 12])))] + \
+          "max_paths": 200000, "must_reach": []} for t, lens in ((("T4", [9, 10]), ("T4", [9, 9, 9]), ("T1", [19])) if tier == "quick" else (("T4", [9, 10, 9]), ("T4", [10, 9, 9]), ("T1", [19]), ("T6", [12, 12])))] + \
         [{"name": f"describe-e2e-P{P}", "h": "describe-e2e", "params": {"P": P}, "split": 8, "chunk": 20, "must_reach": [f"P{P}"]} for P in ((1, 2, 11) if tier == "quick" else (1, 2, 3, 10, 11, 12))]
 
 
@@ -569,7 +573,7 @@ def finding_key(f, req, got):
         return "C19:describe-packets-duplicate-rows" if 1 <= i.get("n", 0) <= 9 else f"C19:describe:n={i.get('n')}"
     if req.get("kind") == "describe-e2e":
         return "C19:describe-e2e:" + f["label"].split(":")[0][:40]
-    if req.get("kind") == "parse-cli" and isinstance(got, dict) and got.get("cli_end") and got.get("end", "stop") != "stop":
+    if req.get("kind") == "parse-cli" and f["label"].startswith("spp parse does not end in a traceback"):
         return "C19:parse-traceback-when-a-packet-cannot-be-decoded"
     if req.get("kind") == "parse-cli":
         return "C19:parse-cli:" + re.sub(r"pkt\d+", "pkt", f["label"])[:50]
